@@ -30,6 +30,8 @@ def main():
     files = [os.path.join(root, 'a', 'f1'), os.path.join(root, 'a', 'f2'),
              os.path.join(root, 'a', 'b', 'f3'), os.path.join(root, 'a', 'b', 'c', 'f4'),
              os.path.join(root, 'd', 'f5')]
+    dirs = [os.path.join(root, 'a'), os.path.join(root, 'a', 'b'), os.path.join(root, 'a', 'b', 'c'),
+            os.path.join(root, 'd')]
     n = [0]
     failures = []
     t0 = time.time()
@@ -38,6 +40,16 @@ def main():
         bd = BuildDirs([], [])
         kids, created, err, vdirs = {}, {}, set(), {root}
         for (op, i) in seq:
+            if op == 'q':
+                # a query in between (what the executor does for is_dir/exists): the scan memoises
+                # in _removed_dirs, which later bookkeeping must not mistake for "nothing to do".
+                # The paths do not exist on disk, so a directory is virtually present iff reserved.
+                d = dirs[i]
+                got = bd.is_removed_norm_case(d)
+                exp = (d not in kids) and (d in err)
+                if got != exp:
+                    return 'is_removed_norm_case(%s) = %r, expected %r' % (d, got, exp)
+                continue
             f = files[i]
             if op == 's':
                 made = [a for a in reversed(ancestors(f)) if a not in vdirs]
@@ -88,10 +100,15 @@ def main():
         except Exception as e:
             bad = 'raised %s: %s' % (type(e).__name__, e)
         if bad:
-            failures.append({'sequence': [(op, files[i]) for op, i in seq], 'problem': bad})
+            failures.append({'sequence': [(op, (dirs if op == 'q' else files)[i]) for op, i in seq],
+                             'problem': bad})
             return True
         if len(seq) >= LEN:
             return False
+        if sum(1 for (op, _) in seq if op == 'q') < 2:
+            for j in range(len(dirs)):
+                if explore(seq + [('q', j)], state):
+                    return True
         for i in range(len(files)):
             for op, frm, to in (('s', 0, 1), ('e', 1, 2), ('s', 2, 1)):
                 if state[i] == frm:
